@@ -101,3 +101,13 @@ Proof. intros [k1 k2 k3]. destruct k1, k2, k3; reflexivity. Qed.
 
 Lemma gen_merge_policy : forall el eq, g_merge_policy el eq = merge_policy el eq.
 Proof. intros [k1 k2 k3] eq. destruct k1, k2, k3; reflexivity. Qed.
+
+(* ---- request.propagate_and_optimize_mode: every mode explored on a spectrum has the baud rate and the equalisation
+        offset that spectrum was built with (so the ROADM crossings of the accepted propagation are those of the mode) *)
+Lemma gen_mode_explored : forall mb mo msp br off sp,
+  g_mode_explored mb mo msp br off sp = true -> mb == br /\ mo == off.
+Proof.
+  intros mb mo msp br off sp H. unfold g_mode_explored in H.
+  apply andb_prop in H. destruct H as [H _]. apply andb_prop in H. destruct H as [H1 H2].
+  split; apply Qeq_bool_iff; assumption.
+Qed.
